@@ -152,7 +152,7 @@ func Resolved(p ExprPred) ExprPred {
 		if !ok || v.IsField() || v.Pkg() == nil || v.Parent() == v.Pkg().Scope() {
 			return false
 		}
-		defs := c.DefsOf(v)
+		defs := LiveDefs(c.DefsOf(v))
 		if len(defs) != 1 || defs[0].Rhs == nil {
 			return false
 		}
